@@ -301,7 +301,7 @@ def _js(st: dict) -> dict:
 def section_dict(ctx) -> None:
     rng = ctx.rng
     cases, keep = [], []
-    sessions = ctx.scale(6, 120)
+    sessions = ctx.scale(6, 100)
     for _ in range(sessions):
         arun(dict_session(ctx, rng, 25, cases, keep), timeout=300)
     ctx.sample(keep[0] if keep else {})
@@ -536,7 +536,7 @@ def maildir_failures(res: dict, cr: dict) -> list:
 
 def section_maildir(ctx) -> None:
     rng = ctx.rng
-    jobs = maildir_histories(rng, ctx.scale(3, 80))
+    jobs = maildir_histories(rng, ctx.scale(3, 50))
     nkill = ctx.scale(1, 4)
     results = M.crash_campaign(
         jobs, lambda total: range(total + 1),
